@@ -75,6 +75,11 @@ CLAIMS = {
         'macro timeFromYearAsDays equals the integer day count. ISO parser: every read inside the text for ANY string, fraction loop terminates, numeric zone offsets shift the instant by the stated offset.',
    note=TB + 'Not decided: hour/minute/second extraction in calc() (floating fract), the floating entry floor(t/86400) of yearFromTime, formatting (printf), the HTTP-date branch (split/Map), local time, the custom-format constructor.',
    technique='CBMC code contracts (DFCC) over a symbolic day number; loop contract for the parser'),
+ 'C09': dict(level='proof', design='6 C09',
+   text='For ANY request target / URL text / header value (symbolic lengths and positions): every substring() and operator[] argument in the fragment/query/path split of HttpRequest::read and in Url::Url is in range; Url::decode stays inside the text and terminates; '
+        'the ".." filter tests and cleans the DECODED path, also when percent-decoding yields NUL bytes; the Range header parts are only indexed below their count; each turn of the readBody read loop reads 1..sizeof(buffer) bytes and either delivers data or returns.',
+   note=TB + 'String/Array/Socket callees are contract stubs: substring precondition (C03), indexOf = first occurrence or -1, contains/replace on the C string (assumed), Socket::read = 1..n bytes or 0/negative after close. NOT decided: header parsing (readHeaders/readLine: Dic and String loops), delivered method/headers/body equal to what was sent, file mapping, keep-alive dispatch loop.',
+   technique='CBMC code contracts on extracted code regions with callee contracts as stubs'),
  'C11': dict(level='proof', design='6 C11',
    text='WebSocket::send frame header proved against an RFC 6455 5.2 specification for EVERY payload length 1..2^31-1, frame type and masking key (7/16/64-bit length forms at exactly 125/126 and 65535/65536, network order). '
         'WebSocket::receive header decoding for ANY bytes from the peer never sizes the buffer with a negative length. Word-wise masking loop = per-octet RFC masking (bounded to 13-byte payloads).',
